@@ -1308,6 +1308,8 @@ class LiteralValue:
     parents: list
 
     def __init__(self, value):
+        # Type.__init__ gives this instance its own `fields` table (instead of sharing the class's)
+        super().__init__()
         self.value = value
 
     def promote(self):
